@@ -91,7 +91,7 @@ type omMachine struct {
 func newOmMachine(site *listSite, cands [][]model.Val) *omMachine {
 	m := &omMachine{site: site, cands: cands, deleted: map[string]bool{}, rejAt: -1}
 	m.root, m.parent = site.newRooted()
-	m.mark = findMarker(site.f, cands[0])
+	m.mark = site.marker(cands[0])
 	return m
 }
 
@@ -610,9 +610,12 @@ func TestC15_Machine(t *testing.T) {
 	if len(sites) < 4 {
 		t.Fatalf("HARNESS-BUG: expected the ordered lists of vtu, vtw, vocc, vocu, found %d", len(sites))
 	}
+	tl := newTally()
 	rapid.Check(t, func(rt *rapid.T) {
 		site := sites[rapid.IntRange(0, len(sites)-1).Draw(rt, "list")]
-		gopts := model.GenOpts{PlainStrings: true, Sparse: true, NoUnkeyed: true}
+		// generated entry content: no presence containers (gNMI notifications carry leaves only, so an
+		// empty presence container cannot survive that transport; C02's precondition, not C15's subject)
+		gopts := model.GenOpts{PlainStrings: true, Sparse: true, NoUnkeyed: true, Skip: func(f *model.FieldInfo) bool { return f.Presence }}
 		cands := drawCands(rt, site, gopts, rapid.IntRange(2, 4).Draw(rt, "ncand"))
 		if len(cands) < 2 {
 			rt.Skip("fewer than two distinct candidate keys")
@@ -694,40 +697,28 @@ func TestC15_Machine(t *testing.T) {
 				rt.Fatalf("C15 violated at the end of the history: %v\n%s", err, m.describe())
 			}
 		}
-		rec.Case(m.histKey(), m.nontrivial(), m.classes()...)
+		cl := m.classes()
+		rec.Case(m.histKey(), m.nontrivial(), cl...)
+		tl.add(cl)
 		if rec.WantSample() {
 			rec.Sample(map[string]interface{}{"list": site.id(), "history": strings.Join(m.hist, " ; "), "final_order": m.modelKeys()})
 		}
 	})
-	c15Health(t, rec)
+	tl.require(t, "C15", 100, c15Need)
 }
 
-// c15Health fails with INCONCLUSIVE when an essential class of histories (almost) never occurred.
-func c15Health(t *testing.T, rec *ev.Rec) {
-	if t.Failed() {
-		return
-	}
-	cl, n := healthCounts(rec)
-	if n < 50 {
-		return // replay of a single case or a tiny run: nothing to measure
-	}
-	need := map[string]float64{
-		"hist:rejected-append-then-more": 0.30,
-		"hist:delete-then-reappend":      0.10,
-		"hist:duplicate-rejected":        0.25,
-		"hist:append-nil":                0.10,
-		"hist:append-nil-key":            0.10,
-		"hist:keys-slice-mutated":        0.10,
-		"hist:values-slice-mutated":      0.10,
-		"hist:parent-helper":             0.30,
-		"keys:2":                         0.10,
-		"final:>=3-entries":              0.05,
-	}
-	for c, min := range need {
-		if float64(cl[c]) < min*float64(n) {
-			t.Fatalf("INCONCLUSIVE: generator health: class %q occurred in %d of %d histories (need >= %.0f%%)", c, cl[c], n, min*100)
-		}
-	}
+// c15Need lists the minimum frequencies of the essential history classes.
+var c15Need = map[string]float64{
+	"hist:rejected-append-then-more": 0.30,
+	"hist:delete-then-reappend":      0.10,
+	"hist:duplicate-rejected":        0.25,
+	"hist:append-nil":                0.10,
+	"hist:append-nil-key":            0.10,
+	"hist:keys-slice-mutated":        0.10,
+	"hist:values-slice-mutated":      0.10,
+	"hist:parent-helper":             0.30,
+	"keys:2":                         0.10,
+	"final:>=3-entries":              0.05,
 }
 
 // ---- bounded-exhaustive part ---------------------------------------------------------------------------
